@@ -79,6 +79,9 @@ pub fn record(args: &Args) {
     let n = args.opt_u64("n", 40);
     let ks = args.opt_u64("wsamp", 10);
     let kp = args.opt_u64("wprune", 5);
+    // spec -> impl: initial configurations enumerated by TLC (spec/Gen_Pruner.tla) instead of random ones
+    let cases: Option<Vec<Value>> = args.opt("cases").map(h_common::read_cases);
+    let runs = cases.as_ref().map(|c| c.len() as u64).unwrap_or(runs);
     let mut tw = TraceWriter::create(args.opt("out").expect("--out"));
     let mut sum = Summary::new("pruner-record");
     let mut rng = StdRng::seed_from_u64(seed ^ 0x9a11);
@@ -100,8 +103,69 @@ pub fn record(args: &Args) {
             });
             let store = Arc::new(RecStore { inner: InMemoryStore::new(), hook });
             let bs = Arc::new(RecBlockstore { inner: InMemoryBlockstore::new(), log: log.clone() });
-            // ---- random store: ranges with gaps, pruned holes, sampled marks, metadata + blocks
             let mut stored: BTreeSet<u64> = BTreeSet::new();
+            let mut pruned: BTreeSet<u64> = BTreeSet::new();
+            let mut sampled: BTreeSet<u64> = BTreeSet::new();
+            let mut meta: BTreeMap<u64, Vec<u64>> = BTreeMap::new();
+            let mut bstore: Vec<u64> = vec![];
+            let ongoing: BTreeSet<u64>;
+            // grant policy of the scripted daser: None = coin, Some(b) = always b
+            let mut policy: Option<bool> = None;
+            if let Some(cs) = &cases {
+                // c[h]: 0 never synced, 1 pruned, 2 stored, 3 stored + metadata, 4 stored + metadata + sampled
+                let c: Vec<u64> = cs[run as usize]["cfg"].as_array().unwrap().iter().map(|x| x.as_u64().unwrap()).collect();
+                let pol = cs[run as usize]["pol"].as_u64().unwrap();
+                let mut h = 1u64;
+                while h <= n {
+                    if c[(h - 1) as usize] == 0 {
+                        h += 1;
+                        continue;
+                    }
+                    let mut e = h;
+                    while e < n && c[e as usize] != 0 {
+                        e += 1;
+                    }
+                    store.inner.insert(chain[(h - 1) as usize..e as usize].to_vec()).await.unwrap();
+                    stored.extend(h..=e);
+                    h = e + 1;
+                }
+                for x in 1..=n {
+                    let v = c[(x - 1) as usize];
+                    if v == 1 {
+                        store.inner.remove_height(x).await.unwrap();
+                        stored.remove(&x);
+                        pruned.insert(x);
+                    }
+                }
+                log.lock().unwrap().clear();
+                for x in 1..=n {
+                    let v = c[(x - 1) as usize];
+                    if v >= 3 {
+                        let k = 1 + x % 2;
+                        let cids: Vec<cid::Cid> = (0..k).map(|i| mk_cid(x, i)).collect();
+                        store.inner.update_sampling_metadata(x, cids.clone()).await.unwrap();
+                        for (i, cc) in cids.iter().enumerate() {
+                            bs.inner.put_keyed(cc, b"x").await.unwrap();
+                            bstore.push(x * 4 + i as u64);
+                        }
+                        meta.insert(x, (0..k).map(|i| x * 4 + i).collect());
+                    }
+                    if v == 4 {
+                        store.inner.mark_as_sampled(x).await.unwrap();
+                        sampled.insert(x);
+                    }
+                }
+                // pol 0: everything granted; 1: everything refused; 2: the oldest unsampled stored block is being
+                // sampled (refused), the rest granted; 3: the newest unsampled one is
+                let uns: Vec<u64> = stored.iter().filter(|x| !sampled.contains(x)).copied().collect();
+                ongoing = match pol {
+                    2 => uns.first().copied().into_iter().collect(),
+                    3 => uns.last().copied().into_iter().collect(),
+                    _ => BTreeSet::new(),
+                };
+                policy = Some(pol != 1);
+            } else {
+            // ---- random store: ranges with gaps, pruned holes, sampled marks, metadata + blocks
             // the lowest synced height: near 1, anywhere, or around the window edges (an edge of the
             // synced ranges inside the sampling window must survive)
             let mut h = match rng.gen_range(0..4) {
@@ -116,7 +180,6 @@ pub fn record(args: &Args) {
                 stored.extend(h..h + len);
                 h += len + if rng.gen_bool(0.5) { 0 } else { rng.gen_range(1..4) };
             }
-            let mut pruned: BTreeSet<u64> = BTreeSet::new();
             for x in stored.clone() {
                 if rng.gen_bool(0.08) {
                     store.inner.remove_height(x).await.unwrap();
@@ -125,9 +188,6 @@ pub fn record(args: &Args) {
                 }
             }
             log.lock().unwrap().clear();
-            let mut sampled: BTreeSet<u64> = BTreeSet::new();
-            let mut meta: BTreeMap<u64, Vec<u64>> = BTreeMap::new();
-            let mut bstore: Vec<u64> = vec![];
             for x in &stored {
                 if rng.gen_bool(0.55) {
                     let k = rng.gen_range(1..=3);
@@ -145,7 +205,8 @@ pub fn record(args: &Args) {
                 }
             }
             // the scripted daser: blocks "being sampled" are refused, the rest by coin
-            let ongoing: BTreeSet<u64> = stored.iter().filter(|x| !sampled.contains(x) && rng.gen_bool(0.15)).copied().collect();
+            ongoing = stored.iter().filter(|x| !sampled.contains(x) && rng.gen_bool(0.15)).copied().collect();
+            }
             let metav: Vec<Value> = meta.iter().map(|(h, c)| json!([h, c])).collect();
             tw.emit(json!({"name": "init", "run": run, "now": n, "stored": ranges_of(&stored), "sampled": ranges_of(&sampled),
                            "pruned": ranges_of(&pruned), "meta": metav, "bstore": bstore}));
@@ -173,7 +234,7 @@ pub fn record(args: &Args) {
                     }
                     match cmd {
                         MockDaserCmd::WantToPrune { height, respond_to } => {
-                            let grant = !ongoing.contains(&height) && rng.gen_bool(0.7);
+                            let grant = !ongoing.contains(&height) && policy.unwrap_or_else(|| rng.gen_bool(0.7));
                             if grant { n_granted += 1 } else { n_refused += 1 }
                             tw.emit(json!({"name": "want", "h": height, "granted": grant as u8}));
                             let _ = respond_to.send(grant);
@@ -190,7 +251,7 @@ pub fn record(args: &Args) {
                     tw.emit(v);
                 }
                 // environment: occasionally a sampling finishes (mark) -- only sampled marks are added
-                if rng.gen_bool(0.02) {
+                if cases.is_none() && rng.gen_bool(0.02) {
                     let cur = store.inner.get_stored_header_ranges().await.unwrap();
                     let hs: Vec<u64> = cur.as_ref().iter().flat_map(|r| r.clone()).collect();
                     if let Some(x) = hs.choose(&mut rng) {
@@ -214,7 +275,17 @@ pub fn record(args: &Args) {
             for v in log.lock().unwrap().drain(..) {
                 tw.emit(v);
             }
-            let nontrivial = n_removed >= 3 && n_refused >= 1 && n_granted >= 1;
+            if let Some(cs) = &cases {
+                // algorithmic layer: the design (Pruner.tla run to its fixpoint by TLC) leaves exactly `left`
+                let cur = store.inner.get_stored_header_ranges().await.unwrap();
+                let got: Vec<u64> = cur.as_ref().iter().flat_map(|r| r.clone()).collect();
+                let want: Vec<u64> = cs[run as usize]["left"].as_array().unwrap().iter().map(|x| x.as_u64().unwrap()).collect();
+                if got != want {
+                    sum.drift("C35", json!({"what": "the real pruner left a different set than the design", "cfg": cs[run as usize]["cfg"],
+                                             "pol": cs[run as usize]["pol"], "design": want, "real": got}));
+                }
+            }
+            let nontrivial = if cases.is_some() { n_removed + n_refused + n_granted >= 1 } else { n_removed >= 3 && n_refused >= 1 && n_granted >= 1 };
             sum.case("C35", if nontrivial { Some(format!("{run}")) } else { None },
                      || json!({"n": n, "wsamp": ks, "wprune": kp, "removed": n_removed, "granted": n_granted, "refused": n_refused,
                                "ongoing": ongoing.len()}));
